@@ -148,6 +148,10 @@ impl Sim for BootcacheSim {
             Tier::Quick => rng.urange(5, 50),
             Tier::Thorough => rng.urange(5, 90),
         };
+        // one run in 150: a cache as big as the shipped limits allow (1500 peers x 6 addresses): a well-formed file of
+        // well over 1 MiB written by another process, then a few operations on it
+        let big = rng.chance(1, 150);
+        let (max_peers, max_addrs, n_peers, n_vars, n_steps) = if big { (1500, 6, rng.urange(1250, 1400), 4, rng.urange(2, 6)) } else { (max_peers, max_addrs, n_peers, n_vars, n_steps) };
         // swarm style: weights of this run
         let w_add = rng.range(15, 40);
         let w_status = rng.range(3, 20);
@@ -171,7 +175,15 @@ impl Sim for BootcacheSim {
         let p_detach = rng.range(0, 10);
         let p_bad_shape = rng.range(0, 4); // of 10
         let mut steps = Vec::with_capacity(n_steps + 4);
-        if rng.chance(1, 2) {
+        if big {
+            let mut entries = vec![];
+            for peer in 0..n_peers {
+                for var in 0..n_vars {
+                    entries.push(CraftEnt { peer, var, succ: rng.range(1, 9) as u32, fail: rng.range(0, 1) as u32, age: rng.below(5) as u8 });
+                }
+            }
+            steps.push(Step::Craft { entries });
+        } else if rng.chance(1, 2) {
             steps.push(Step::Craft {
                 entries: gen_entries(rng, n_peers, n_vars, fault, 10),
             });
